@@ -234,10 +234,10 @@ PROPS["C05"] = {
                             "3": "a conformant server with a complete, consistent descriptor set got an error report instead of a description"},
                 "versions": PROPS["C15"]["reasons"]["seq"]},
     "rule": "resolve: fixed dependency shapes (chain, diamond, re-sent-file graph, fan-out, deep chain, dense DAG) under every policy first, then random descriptor universes (1-6 files, chain/diamond dependency DAGs, 0-2 services per file, 0-2 methods with message types from the file or a dependency, 0-2 bindings of every pattern kind incl. custom verbs) x listed-name lists (subset, duplicates, invalid names, administrative grpc.* names, shuffled) x 8 answering policies (closure, only requested file, requested file + direct imports (later rounds re-send files the client has), grpc-go style minus already sent, dependencies first, duplicated, and two NON-conformant ones: wrong file for a symbol, a dependency never provided) x recursion limits; versions: protocol-version availability histories (shared with C15); non-trivial = universe with more than one file",
-    "level_text": "Coq theorems for EVERY server (answering functions are universally quantified): whatever the resolver collects has every file name once (de-duplication) and, when the dependency search returns a set, every dependency of every collected file is in it - the precondition of protodesc.NewFiles; service-name filtering yields exactly the valid, first-occurrence, non-administrative listed names; the pre-repair de-duplication (none) is refuted. Tied to the code by running the real resolver against a scripted reflection server with conformant and non-conformant policies.",
+    "level_text": "Coq theorems for EVERY server (answering functions are universally quantified): whatever the resolver collects has every file name once (de-duplication) and, when the dependency search returns a set, every dependency of every collected file is in it - the precondition of protodesc.NewFiles; service-name filtering yields exactly the valid, first-occurrence, non-administrative listed names; the pre-repair de-duplication (none) is refuted. CONVERSELY (ReflCompleteProofs.v) against every conformant server - answers made of its own files, none ranked above the requested one in the acyclic dependency graph, the requested file present unless already sent on the stream - and a recursion limit above the graph's depth, the search succeeds and the description lists exactly the requested services. Tied to the code by running the real resolver against a scripted reflection server with conformant and non-conformant policies.",
     "level_note": "Trusted: Coq kernel, extraction, modelrun, Go harness (scripted reflection server); protodesc.NewFiles' own validation beyond name-uniqueness and dependency presence; proto option parsing (google.api.http extension).",
     "design_ref": "DESIGN.md §3 C05",
-    "assumptions": ["that the recursion limit suffices for a DAG of that depth is exercised, not proved (the theorem is soundness of what is returned)"],
+    "assumptions": ["protodesc.NewFiles beyond name uniqueness and dependency presence, and the parsing of the google.api.http option, are exercised, not modelled"],
 }
 
 PROPS["C09"] = {
